@@ -362,6 +362,52 @@ func init() {
 		return e.callValue(args[1], nil, nil, caller, nil)
 	}
 
+	// ---- time: virtual clock. A time.Time is carried as {wall: 0, ext: virtual nanoseconds, loc: nil}. ----
+	mkTime := func(e *Exec, ns *Term) Value {
+		return &StructV{f: []Value{e.ctx.Const(64, 0), ns, Ptr{}}}
+	}
+	timeNs := func(v Value) *Term { return v.(*StructV).f[1].(*Term) }
+	clock := func(e *Exec) *Term {
+		if e.clock == nil {
+			e.clock = e.ctx.Const(64, 0)
+		}
+		return e.clock
+	}
+	intrinsics["time.Now"] = func(e *Exec, fn *ssa.Function, args []Value, caller *Frame) (Value, *GoPanic) {
+		return mkTime(e, clock(e)), nil
+	}
+	intrinsics["(time.Time).Add"] = func(e *Exec, fn *ssa.Function, args []Value, caller *Frame) (Value, *GoPanic) {
+		return mkTime(e, e.ctx.BinBV(OpAdd, timeNs(args[0]), args[1].(*Term))), nil
+	}
+	intrinsics["(time.Time).Sub"] = func(e *Exec, fn *ssa.Function, args []Value, caller *Frame) (Value, *GoPanic) {
+		return e.ctx.BinBV(OpSub, timeNs(args[0]), timeNs(args[1])), nil
+	}
+	intrinsics["time.Since"] = func(e *Exec, fn *ssa.Function, args []Value, caller *Frame) (Value, *GoPanic) {
+		return e.ctx.BinBV(OpSub, clock(e), timeNs(args[0])), nil
+	}
+	intrinsics["(time.Time).Before"] = func(e *Exec, fn *ssa.Function, args []Value, caller *Frame) (Value, *GoPanic) {
+		return e.ctx.Cmp(OpSlt, timeNs(args[0]), timeNs(args[1])), nil
+	}
+	intrinsics["(time.Time).After"] = func(e *Exec, fn *ssa.Function, args []Value, caller *Frame) (Value, *GoPanic) {
+		return e.ctx.Cmp(OpSlt, timeNs(args[1]), timeNs(args[0])), nil
+	}
+	intrinsics["(time.Time).Equal"] = func(e *Exec, fn *ssa.Function, args []Value, caller *Frame) (Value, *GoPanic) {
+		return e.ctx.Eq(timeNs(args[0]), timeNs(args[1])), nil
+	}
+	intrinsics["(time.Time).IsZero"] = func(e *Exec, fn *ssa.Function, args []Value, caller *Frame) (Value, *GoPanic) {
+		return e.ctx.Eq(timeNs(args[0]), e.ctx.Const(64, 0)), nil
+	}
+	intrinsics["time.Sleep"] = func(e *Exec, fn *ssa.Function, args []Value, caller *Frame) (Value, *GoPanic) {
+		d := args[0].(*Term)
+		pos := e.ctx.Cmp(OpSlt, e.ctx.Const(64, 0), d)
+		e.clock = e.ctx.BinBV(OpAdd, clock(e), e.ctx.Ite(pos, d, e.ctx.Const(64, 0)))
+		e.sleeps++
+		return nil, nil
+	}
+	reg("ClockNs", func(e *Exec, fn *ssa.Function, args []Value, caller *Frame) (Value, *GoPanic) {
+		return clock(e), nil
+	})
+
 	// ---- math ----
 	math1 := func(name string, f func(float64) float64, mode string) {
 		intrinsics["math."+name] = func(e *Exec, fn *ssa.Function, args []Value, caller *Frame) (Value, *GoPanic) {
